@@ -2,6 +2,7 @@ package props
 
 import (
 	"go/ast"
+	"go/token"
 	"go/types"
 	"strings"
 
@@ -26,6 +27,18 @@ func init() {
 		Assumptions: []string{"sync.Mutex, sync.Once and channel close/receive give the happens-before edges of the Go memory model", "builders are used by one goroutine (documented: builders are not thread-safe)"},
 		Run:         runC18,
 		Mutants: []Mutant{
+			{Name: "edge-skipped-for-merely-done-task", File: "go/ir/task.go", Rule: "R18.6", KeyPart: "edge-omitted-only-if-target-transitively-done",
+				Old: "\tif x == y || y.isTransitivelyDone() {\n", New: "\tif x == y || y.isDone() {\n",
+				More: []Edit{{File: "go/ir/task.go", Old: "// addEdge creates an edge from x to y, indicating that\n", New: "func (x *task) isDone() bool {\n\tif x == nil {\n\t\treturn true\n\t}\n\tselect {\n\tcase <-x.done:\n\t\treturn true\n\tdefault:\n\t\treturn false\n\t}\n}\n\n// addEdge creates an edge from x to y, indicating that\n"}}},
+			{Name: "transitively-done-means-done", File: "go/ir/task.go", Rule: "R18.6", KeyPart: "only-nil-or-transitive-flag",
+				Old: "func (x *task) isTransitivelyDone() bool { return x == nil || x.transitive.Load() }\n", New: "func (x *task) isTransitivelyDone() bool {\n\tif x == nil || x.transitive.Load() {\n\t\treturn true\n\t}\n\tselect {\n\tcase <-x.done:\n\t\treturn true\n\tdefault:\n\t\treturn false\n\t}\n}\n"},
+			{Name: "edges-read-before-task-done", File: "go/ir/task.go", Rule: "R18.6", KeyPart: "edges-read-after-done",
+				Old: "\t\t<-u.done // wait for u to be marked done.\n", New: "",
+				More: []Edit{{File: "go/ir/task.go", Old: "\t\t\t\twork = append(work, v)\n\t\t\t}\n\t\t}\n", New: "\t\t\t\twork = append(work, v)\n\t\t\t}\n\t\t}\n\t\t<-u.done\n"}}},
+			{Name: "transitive-flag-set-during-bfs", File: "go/ir/task.go", Rule: "R18.6", KeyPart: "transitive-set-after-closure",
+				Old: "\t\t<-u.done // wait for u to be marked done.\n", New: "\t\t<-u.done // wait for u to be marked done.\n\t\tu.transitive.Store(true)\n"},
+			{Name: "successors-dropped-beyond-limit", File: "go/ir/task.go", Rule: "R18.6", KeyPart: "every-unseen-successor-enqueued",
+				Old: "\t\t\t\tenqueued[v] = unit{}\n\t\t\t\twork = append(work, v)\n", New: "\t\t\t\tenqueued[v] = unit{}\n\t\t\t\tif len(work) < 4096 {\n\t\t\t\t\twork = append(work, v)\n\t\t\t\t}\n"},
 			{Name: "instances-read-unlocked", File: "go/ir/instantiate.go", Rule: "R18.1", KeyPart: "generic.instances",
 				Old: "\tgen.instancesMu.Lock()\n\tdefer gen.instancesMu.Unlock()\n\tinst, ok := gen.instances[key]\n", New: "\tinst, ok := gen.instances[key]\n\tgen.instancesMu.Lock()\n\tdefer gen.instancesMu.Unlock()\n"},
 			{Name: "objectmethods-early-unlock", File: "go/ir/methods.go", Rule: "R18.1", KeyPart: "Program.objectMethods",
@@ -464,5 +477,185 @@ func runC18(c *Ctx) {
 		nonNil := ComplementEdges(EqEdges(bf, func(x, y ssa.Value) bool { return IsNilConst(y) && DerivesLocal(x, IsFieldOf("ir.Function", "build")) }))
 		ok, p2 := MustPassEdges(bf, callBuild, nonNil)
 		c.Check(FuncKey(bf)+"::build-only-if-unbuilt", callBuild.Pos(), ok && len(nonNil) > 0, "a function is built only while its build field is non-nil (idempotence); path: %s", PathString(bf, p2))
+	})
+	// R18.6: the task graph. "x.wait() returns only when everything reachable
+	// from x is done" needs: an edge is omitted only towards a task that is
+	// itself transitively done; "transitively done" is only ever set after the
+	// closure was waited for; wait reads a task's edges only after that task is
+	// done (edges are added before markDone) and enqueues every unseen successor.
+	c.Rule("R18.6", func() {
+		c.Floor("R18.6", 5)
+		addEdge := c.Func("go/ir", "(*task).addEdge")
+		itd := c.Func("go/ir", "(*task).isTransitivelyDone")
+		wait := c.Func("go/ir", "(*task).wait")
+		isRet := func(in ssa.Instruction) bool { _, ok := in.(*ssa.Return); return ok }
+
+		// (1) isTransitivelyDone: true only for nil or transitive.Load()
+		{
+			ok, why := true, ""
+			Instrs(itd, false, func(in ssa.Instruction) {
+				switch x := in.(type) {
+				case *ssa.Select:
+					ok, why = false, "it looks at a channel"
+				case *ssa.UnOp:
+					if x.Op == token.ARROW {
+						ok, why = false, "it looks at a channel"
+					}
+				}
+			})
+			nilEdges := EqEdges(itd, func(x, y ssa.Value) bool { return IsNilConst(y) && x == ssa.Value(itd.Params[0]) })
+			loads := 0
+			for _, r := range Returns(itd) {
+				var check func(v ssa.Value, from *ssa.BasicBlock)
+				check = func(v ssa.Value, from *ssa.BasicBlock) {
+					switch v := v.(type) {
+					case *ssa.Phi:
+						for i, e := range v.Edges {
+							check(e, v.Block().Preds[i])
+						}
+					case *ssa.Const:
+						if isBoolConst(v, true) {
+							last := from.Instrs[len(from.Instrs)-1]
+							if okp, _ := MustPassEdges(itd, last, nilEdges); !okp || len(nilEdges) == 0 {
+								// the constant must be selected by the x == nil edge itself
+								sel := false
+								if iff, isIf := last.(*ssa.If); isIf {
+									if b, isB := iff.Cond.(*ssa.BinOp); isB && b.Op == token.EQL && IsNilConst(b.Y) && b.X == ssa.Value(itd.Params[0]) {
+										sel = true
+									}
+								}
+								if !sel {
+									ok, why = false, "returns true on a path that is not the nil-receiver case"
+								}
+							}
+						}
+					case *ssa.Call:
+						if strings.HasSuffix(CalleeName(&v.Call), "atomic.Bool.Load") && DerivesLocal(v.Call.Args[0], IsFieldOf("ir.task", "transitive")) {
+							loads++
+						} else {
+							ok, why = false, "returns the result of "+CalleeName(&v.Call)
+						}
+					default:
+						ok, why = false, "returns a value that is neither the transitive flag nor the nil-receiver constant"
+					}
+				}
+				check(r.Results[0], r.Block())
+			}
+			c.Check(FuncKey(itd)+"::only-nil-or-transitive-flag", itd.Pos(), ok && loads > 0, "isTransitivelyDone may answer true only for the nil task or when the transitive flag is set (a task whose own work is done may still be waiting for others): %s", why)
+		}
+		// (2) addEdge omits the edge only for x == y or a transitively done y
+		{
+			var upd ssa.Instruction
+			Instrs(addEdge, false, func(in ssa.Instruction) {
+				if mu, ok := in.(*ssa.MapUpdate); ok && DerivesLocal(mu.Map, IsFieldOf("ir.task", "edges")) && mu.Key == ssa.Value(addEdge.Params[1]) {
+					upd = mu
+				}
+			})
+			if upd == nil {
+				c.Undecided("addEdge no longer records y in x.edges")
+			}
+			skip := UnionEdges(
+				EqEdges(addEdge, func(x, y ssa.Value) bool {
+					return x == ssa.Value(addEdge.Params[0]) && y == ssa.Value(addEdge.Params[1]) || y == ssa.Value(addEdge.Params[0]) && x == ssa.Value(addEdge.Params[1])
+				}),
+				CallTrueEdges(addEdge, func(call *ssa.Call) bool {
+					return call.Call.StaticCallee() == itd && len(call.Call.Args) == 1 && call.Call.Args[0] == ssa.Value(addEdge.Params[1])
+				}))
+			t, path := PathAvoiding(addEdge, addEdge.Blocks[0].Instrs[0], isRet, func(in ssa.Instruction) bool { return in == upd }, skip)
+			c.Check(FuncKey(addEdge)+"::edge-omitted-only-if-target-transitively-done", addEdge.Pos(), t == nil && len(skip) >= 2, "addEdge may drop the edge x→y only when x == y or y is transitively done; dropping it for a y that is merely done lets x.wait() return while y's own dependencies are still being built; path that returns without the edge: %s", PathString(addEdge, path))
+		}
+		// (3)-(5) wait
+		{
+			var recv *ssa.UnOp
+			Instrs(wait, false, func(in ssa.Instruction) {
+				if u, ok := in.(*ssa.UnOp); ok && u.Op == token.ARROW && DerivesLocal(u.X, IsFieldOf("ir.task", "done")) {
+					recv = u
+				}
+			})
+			if recv == nil {
+				c.Undecided("wait no longer receives from a task's done channel")
+			}
+			// the task whose done channel is received from
+			var cur ssa.Value
+			for x := range BackSlice(recv.X, SliceOpts{NoMemory: true}) {
+				if fa, ok := x.(*ssa.FieldAddr); ok && IsFieldOf("ir.task", "done")(fa) {
+					cur = fa.X
+				}
+			}
+			// (3) edges of u are read only after u is done
+			nEdges := 0
+			Instrs(wait, false, func(in ssa.Instruction) {
+				fa, ok := in.(*ssa.FieldAddr)
+				if !ok || !IsFieldOf("ir.task", "edges")(fa) {
+					return
+				}
+				nEdges++
+				c.Check(FuncKey(wait)+"::edges-read-after-done#"+itoa(nEdges-1), fa.Pos(), fa.X == cur && InstrDominates(recv, fa), "wait may look at u.edges only after <-u.done: edges are added until the task is marked done, so an earlier read misses dependencies (and races)")
+			})
+			if nEdges == 0 {
+				c.Undecided("wait no longer reads task.edges")
+			}
+			// (4) transitive is set only after the whole closure was waited for: the store cannot be followed by another receive
+			nStores := 0
+			for _, ci := range Calls(wait, false) {
+				if strings.HasSuffix(CalleeName(ci.Common()), "atomic.Bool.Store") && DerivesLocal(ci.Common().Args[0], IsFieldOf("ir.task", "transitive")) {
+					nStores++
+					c.Check(FuncKey(wait)+"::transitive-set-after-closure#"+itoa(nStores-1), ci.Pos(), !ReachesFrom(wait, ci, recv) && ReachesFrom(wait, recv, ci), "the transitive flag may be set only once every task reachable through edges has been waited for (no receive may follow it)")
+				}
+			}
+			for _, fn := range funcs {
+				if fn == wait {
+					continue
+				}
+				for _, ci := range Calls(fn, false) {
+					if strings.HasSuffix(CalleeName(ci.Common()), "atomic.Bool.Store") && DerivesLocal(ci.Common().Args[0], IsFieldOf("ir.task", "transitive")) {
+						c.Check(FuncKey(fn)+"::sets-transitive-outside-wait", ci.Pos(), false, "only wait() may set a task's transitive flag")
+					}
+				}
+			}
+			// (5) every successor not seen before is appended to the work list, and the list that is iterated is the appended one
+			var miss *ssa.Lookup
+			Instrs(wait, false, func(in ssa.Instruction) {
+				if lk, ok := in.(*ssa.Lookup); ok && lk.CommaOk {
+					if _, isMap := lk.X.Type().Underlying().(*types.Map); isMap && Derives(lk.Index, func(v ssa.Value) bool { _, isNext := v.(*ssa.Next); return isNext }) {
+						miss = lk
+					}
+				}
+			})
+			if miss == nil {
+				c.Undecided("wait no longer tests whether a successor was already enqueued")
+			}
+			var app *ssa.Call
+			Instrs(wait, false, func(in ssa.Instruction) {
+				if call, ok := in.(*ssa.Call); ok && IsCallTo(call, "builtin.append") && Derives(call.Call.Args[1], func(v ssa.Value) bool { return v == miss.Index }) {
+					app = call
+				}
+			})
+			seenEdges := CondEdges(wait, func(cond ssa.Value) (bool, bool) {
+				e, ok := cond.(*ssa.Extract)
+				return ok && e.Index == 1 && e.Tuple == ssa.Value(miss), true
+			})
+			okApp := app != nil
+			pathStr := ""
+			if okApp {
+				hdr := miss.Block()
+				t, path := PathAvoiding(wait, miss, func(in ssa.Instruction) bool {
+					return isRet(in) || in.Block() != hdr && ReachesFrom(wait, in, miss) && in.Block().Dominates(hdr) && in == in.Block().Instrs[0]
+				}, func(in ssa.Instruction) bool { return in == ssa.Instruction(app) }, seenEdges)
+				okApp = t == nil && len(seenEdges) > 0
+				pathStr = PathString(wait, path)
+				// the grown list is what the outer loop iterates
+				flows := false
+				Instrs(wait, false, func(in ssa.Instruction) {
+					if ia, ok := in.(*ssa.IndexAddr); ok && ia.Block().Dominates(recv.Block()) && Derives(ia.X, func(v ssa.Value) bool { return v == ssa.Value(app) }) {
+						flows = true
+					}
+				})
+				if !flows {
+					okApp, pathStr = false, "the list that wait iterates is not the one successors are appended to"
+				}
+			}
+			c.Check(FuncKey(wait)+"::every-unseen-successor-enqueued", miss.Pos(), okApp, "every task in u.edges that was not enqueued before must be appended to the work list that wait iterates: %s", pathStr)
+		}
 	})
 }
